@@ -166,6 +166,9 @@ func c14Record(tier string, seed int64, emit func(interface{})) {
 		name := field(12, "")
 		seq := poly.Sequence{Sequence: string(sb)}
 		seq.Meta.Name, seq.Meta.RegionStart, seq.Meta.RegionEnd = name, 1, ln
+		if rng.Intn(3) == 0 { // a sequence assembled in code may carry any description
+			seq.Description = field(25, " ,()")
+		}
 		rec := map[string]interface{}{"name": name, "rstart": 1, "rend": ln, "seq": string(sb)}
 		if rng.Intn(8) == 0 {
 			// region bounds left unset in memory (a sequence assembled in code): the library's documented default is
